@@ -5,6 +5,10 @@ CRYPTO_TB = ["SHA-256/512 are Section variables in the theorems (collision disju
              "signature schemes are oracles: no claim that ECDSA/Ed25519/SHA-2 are secure"]
 
 PROPS = {
+    "C01": {"coq": "Properties/C01.v", "gens": ["C01"], "trusted_base": CRYPTO_TB},
+    "C02": {"coq": "Properties/C02.v", "gens": ["C02"], "trusted_base": CRYPTO_TB},
+    "C08": {"coq": "Properties/C08.v", "gens": ["C08"], "trusted_base": CRYPTO_TB},
+    "C09": {"coq": "Properties/C09.v", "gens": ["C09"], "trusted_base": CRYPTO_TB},
     "C11": {"coq": "Properties/C11.v", "gens": ["C11"]},
     "C12": {"coq": "Properties/C12.v", "gens": ["C12"]},
     "C13": {"coq": "Properties/C13.v", "gens": ["C13"]},
